@@ -1,4 +1,4 @@
-From Verif Require Import Lib.Base Auth.Model Auth.Proofs Auth.GenFacts Auth.WritersFacts Gen.SigContexts Gen.NonceWriters.
+From Verif Require Import Lib.Base Auth.Model Auth.Proofs Auth.GenFacts Auth.WritersFacts Gen.SigContexts Gen.NonceWriters Gen.SigOptions.
 From Coq Require String.
 
 (* The context list regenerated from every signature.NewContext call of the
@@ -124,6 +124,29 @@ Theorem same_signed_content_never_executes_twice :
     exists a, U64 < N.of_nat (length (of_addr a (trace C s (o1 ++ OTx raw :: o2 ++ OTx raw2 :: o3)))).
 Proof. exact (@same_content_never_twice). Qed.
 Print Assumptions same_signed_content_never_executes_twice.
+
+(* the Ed25519 acceptance rules (regenerated from the VerifyOptions literal of
+   go/common/crypto/signature/signature.go) are the ones authenticity needs:
+   small-order public keys and commitments rejected; nothing else configured;
+   every verification call of the package goes through that literal *)
+Theorem gen_verify_options_checked :
+  allow_small_order_A = false /\ allow_small_order_R = false /\
+  allow_noncanonical_A = true /\ allow_noncanonical_R = true /\
+  other_option_fields = [] /\ verification_bypassing_options = [].
+Proof. exact verify_options_expected. Qed.
+Print Assumptions gen_verify_options_checked.
+
+(* a public key of small order (for which the verification equation can hold
+   for every message) is never the sender of an authenticated transaction, for
+   ANY signature predicate, as long as AllowSmallOrderA = false *)
+Theorem small_order_key_never_authenticated :
+  forall (L Raw : Type) (C : cfg L Raw) (s : state L) (raw : Raw),
+    allow_small_A C = false ->
+    authenticated (snd (deliver C s raw)) = true ->
+    exists e, dec_env C raw = Some e /\ small_order_A C (e_pk e) = false /\
+              (allow_small_R C = false -> small_order_R C (e_sig e) = false).
+Proof. exact (@Proofs.small_order_key_never_authenticated). Qed.
+Print Assumptions small_order_key_never_authenticated.
 
 Theorem restart_is_identity :
   forall (L Raw : Type) (C : cfg L Raw) (s : state L), step C s ORestart = s.
